@@ -33,7 +33,11 @@ Poly == {Seg(<<5, 0>>, FALSE), Seg(<<2, 3>>, TRUE), Hor(7, FALSE), Hor(-3, TRUE)
          Bez(<< <<2, 2>>, <<4, 0>> >>, TRUE)}
 Arcs == {Arc(4, 4, 0, 90, 0), Arc(2, 2, 90, -180, 0), Arc(3, 3, 0, 540, 0), Arc(1, 1, 180, 90, 0),
          Arc(8, 1, 0, 20, 0), Arc(8, 1, -30, 30, 0), Arc(10, 1, 80, 100, 0), Arc(3, 6, 10, 200, 30),
-         Arc(5, 5, 17, 143, 0), Turn(2, 90), Turn(3, -135), Turn(1, 400),
+         Arc(5, 5, 17, 143, 0),
+         \* elliptical arcs whose angles relative to the axes fall below -180 degrees at one end only
+         \* (clockwise across -180, rotated axes) and at both ends, and more than a turn clockwise
+         Arc(3, 6, -150, -250, 0), Arc(6, 2, -20, 40, 170), Arc(6, 2, -200, -300, 0), Arc(5, 2, -170, -560, 0),
+         Turn(2, 90), Turn(3, -135), Turn(1, 400),
          Par("wave", TRUE), Par("wave", FALSE), Itp(<< <<2, 2>>, <<5, 1>>, <<7, 4>> >>, FALSE),
          Itp(<< <<1, 1>>, <<3, 0>> >>, TRUE)}
 All == Poly \cup Arcs
@@ -61,7 +65,11 @@ Prims == {[p |-> "rectangle", a |-> <<1, 2>>, b |-> <<5, 4>>], [p |-> "rectangle
           [p |-> "fillet", side |-> 10, side2 |-> 1, r |-> 2], [p |-> "fillet", side |-> 1, side2 |-> 10, r |-> 2],
           [p |-> "fillet", side |-> 8, side2 |-> 3, r |-> 1],
           [p |-> "ellipse", c |-> <<0, 0>>, rx |-> 8, ry |-> 1, irx |-> 0, iry |-> 0, a0 |-> -20, a1 |-> 20],
-          [p |-> "ellipse", c |-> <<0, 0>>, rx |-> 8, ry |-> 1, irx |-> 4, iry |-> 1, a0 |-> 0, a1 |-> 30]}
+          [p |-> "ellipse", c |-> <<0, 0>>, rx |-> 8, ry |-> 1, irx |-> 4, iry |-> 1, a0 |-> 0, a1 |-> 30],
+          \* slices given with angles below -180 degrees (one end, both ends)
+          [p |-> "ellipse", c |-> <<0, 0>>, rx |-> 6, ry |-> 3, irx |-> 2, iry |-> 1, a0 |-> -200, a1 |-> -140],
+          [p |-> "ellipse", c |-> <<1, 0>>, rx |-> 3, ry |-> 6, irx |-> 0, iry |-> 0, a0 |-> -250, a1 |-> -100],
+          [p |-> "ellipse", c |-> <<0, 0>>, rx |-> 6, ry |-> 3, irx |-> 0, iry |-> 0, a0 |-> -300, a1 |-> -200]}
 
 Annotate(secs) == LET sts == RunStates(Init0, secs, 1) IN
     [i \in DOMAIN secs |-> [sec |-> secs[i], ctrl |-> CtrlFor(sts[i], secs[i]),
